@@ -672,6 +672,8 @@ class SortedWriter {
     }
 
     async write(stable_entry) {
+        // Put the arrival number in front of the record: entries with equal key and NR (UNNEST, multi-match JOIN) must keep their order instead of being compared as records.
+        stable_entry.splice(stable_entry.length - 1, 0, this.unsorted_entries.length);
         this.unsorted_entries.push(stable_entry);
         return true;
     }
